@@ -37,6 +37,9 @@ pub fn run(pid: &str, c: &Case) {
         "C06" => crate::ikprops::c06(c),
         "C08" => crate::ikprops::c08(c),
         "C16" => c16(c),
+        "C10" => c10(c),
+        "C11" => c11(c),
+        "C14" => c14(c),
         "C17" => c17(c),
         _ => { println!("reproduced=false"); println!("error=unknown property {}", pid); }
     }
@@ -329,4 +332,166 @@ fn c05_search(c: &Case) {
         } }
     }
     println!("native_cases={}", tried); bad.dedup(); for b in bad.iter().take(4) { println!("diff={}", b); } println!("reproduced={}", !bad.is_empty());
+}
+
+// ------------------------------------------------------------------------------------------------ collisions
+use rs_opw_kinematics::collisions::{RobotBody, BaseBody, CollisionBody, SafetyDistances, CheckMode};
+use rs_opw_kinematics::kinematic_traits::{Singularity, Solutions, J_TOOL, J_BASE, ENV_START_IDX};
+use parry3d::shape::TriMesh;
+use std::collections::HashMap;
+
+/// a robot whose link poses are whatever we say (the collision code only asks for forward_with_joint_poses and constraints)
+pub struct FixedPoses { pub poses: [Pose; 6], pub cons: Option<Constraints> }
+impl Kinematics for FixedPoses {
+    fn inverse(&self, _p: &Pose) -> Solutions { vec![] }
+    fn inverse_continuing(&self, _p: &Pose, _q: &Joints) -> Solutions { vec![] }
+    fn forward(&self, _q: &Joints) -> Pose { self.poses[5] }
+    fn inverse_5dof(&self, _p: &Pose, _j: f64) -> Solutions { vec![] }
+    fn inverse_continuing_5dof(&self, _p: &Pose, _q: &Joints) -> Solutions { vec![] }
+    fn constraints(&self) -> &Option<Constraints> { &self.cons }
+    fn kinematic_singularity(&self, _q: &Joints) -> Option<Singularity> { None }
+    fn forward_with_joint_poses(&self, _q: &Joints) -> [Pose; 6] { self.poses }
+}
+pub fn cube(h: f32) -> TriMesh {
+    let p = |x: f32, y: f32, z: f32| nalgebra::Point3::new(x, y, z);
+    let v = vec![p(-h, -h, -h), p(h, -h, -h), p(-h, h, -h), p(h, h, -h), p(-h, -h, h), p(h, -h, h), p(-h, h, h), p(h, h, h)];
+    let idx = vec![[0, 1, 2], [2, 1, 3], [4, 5, 6], [6, 5, 7], [2, 3, 6], [6, 3, 7], [0, 1, 4], [4, 1, 5], [0, 2, 4], [4, 2, 6], [1, 3, 5], [5, 3, 7]];
+    TriMesh::new(v, idx).unwrap()
+}
+fn at(x: f64) -> Pose { Pose::translation(x, 0.0, 0.0) }
+fn at32(x: f32) -> nalgebra::Isometry3<f32> { nalgebra::Isometry3::translation(x, 0.0, 0.0) }
+
+/// world of unit cubes 10 m apart in which exactly the bodies of `pair` coincide; returns (body, kinematics)
+pub fn cube_world(tool: bool, base: bool, nenv: usize, pair: (usize, usize), table: HashMap<(u16, u16), f32>, to_env: f32, to_robot: f32, mode: CheckMode) -> (RobotBody, FixedPoses) {
+    let mut xs: HashMap<usize, f64> = HashMap::new();
+    for i in 0..6 { xs.insert(i, 10.0 * i as f64); }
+    xs.insert(J_TOOL, 50.0); xs.insert(J_BASE, 100.0 + 0.0); for k in 0..nenv { xs.insert(ENV_START_IDX + k, 200.0 + 10.0 * k as f64); }
+    // the tool sits on link 5's pose: give the tool mesh a local offset instead of a pose of its own
+    let (a, b) = pair;
+    let xa = xs[&a]; xs.insert(b, xa);
+    if a == J_TOOL { let xb = xs[&b]; xs.insert(J_TOOL, xb); }
+    let tool_local = (xs[&J_TOOL] - xs[&5]) as f32;
+    let shifted = |dx: f32| rs_opw_kinematics::collisions::transform_mesh(&cube(0.5), &nalgebra::Isometry3::translation(dx, 0.0, 0.0));
+    let poses = [at(xs[&0]), at(xs[&1]), at(xs[&2]), at(xs[&3]), at(xs[&4]), at(xs[&5])];
+    let body = RobotBody {
+        joint_meshes: [cube(0.5), cube(0.5), cube(0.5), cube(0.5), cube(0.5), cube(0.5)],
+        tool: if tool { Some(shifted(tool_local)) } else { None },
+        base: if base { Some(BaseBody { mesh: cube(0.5), base_pose: at32(xs[&J_BASE] as f32) }) } else { None },
+        collision_environment: (0..nenv).map(|k| CollisionBody { mesh: cube(0.5), pose: at32(xs[&(ENV_START_IDX + k)] as f32) }).collect(),
+        safety: SafetyDistances { to_environment: to_env, to_robot_default: to_robot, special_distances: table, mode },
+    };
+    (body, FixedPoses { poses, cons: None })
+}
+fn table_of(c: &Case, key: &str) -> HashMap<(u16, u16), f32> { let mut t = HashMap::new(); if let Some(v) = c.vo(key) { for ch in v.chunks(3) { if ch.len() == 3 { t.insert((ch[0] as u16, ch[1] as u16), ch[2] as f32); } } } t }
+fn spec_r(t: &HashMap<(u16, u16), f32>, a: usize, b: usize, to_env: f32, to_robot: f32) -> f32 {
+    if let Some(r) = t.get(&(a as u16, b as u16)) { return *r; } if let Some(r) = t.get(&(b as u16, a as u16)) { return *r; }
+    if a >= ENV_START_IDX || b >= ENV_START_IDX { to_env } else { to_robot }
+}
+/// C10 clause=tasks: pair=i,j  table=k1,k2,v,...  [given=... for near()] to_env to_robot tool base nenv : the coinciding pair must be reported iff not exempt
+pub fn c10(c: &Case) {
+    let clause = c.s("clause"); let mut bad: Vec<String> = Vec::new();
+    if clause != "tasks" { println!("note=clause {} has no native replay (oracle-level obligation)", clause); println!("reproduced=false"); return; }
+    let (tool, base, nenv) = (c.fo("tool", 1.0) != 0.0, c.fo("base", 1.0) != 0.0, c.fo("nenv", 1.0) as usize);
+    let pv = c.vo("pair"); let own = c.fo("own_table", 1.0) != 0.0;
+    let (to_env, to_robot) = (c.fo("to_env", 0.0) as f32, c.fo("to_robot", 0.0) as f32);
+    let mut pairs: Vec<(usize, usize)> = Vec::new();
+    if let Some(p) = pv { pairs.push((p[0] as usize, p[1] as usize)); }
+    else { // search: every relevant pair, with tables exempting a DIFFERENT pair that shares a body
+        for i in 0..6 { for j in (i + 2)..6 { pairs.push((i, j)); } if base && i >= 1 { pairs.push((i, J_BASE)); } if tool && i <= 3 { pairs.push((i, J_TOOL)); } for k in 0..nenv { pairs.push((i, ENV_START_IDX + k)); } }
+        if tool && base { pairs.push((J_TOOL, J_BASE)); } if tool { for k in 0..nenv { pairs.push((J_TOOL, ENV_START_IDX + k)); } }
+    }
+    let searching = c.vo("pair").is_none();
+    for (a, b) in pairs {
+        let mut tables: Vec<(HashMap<(u16, u16), f32>, HashMap<(u16, u16), f32>)> = Vec::new();
+        if !searching { tables.push((table_of(c, "table"), table_of(c, "given"))); }
+        else {
+            tables.push((HashMap::new(), HashMap::new()));
+            for other in [0usize, 1, 2, 3, 4, 5] { if other != a && other != b { let mut t = HashMap::new(); t.insert((a.min(other) as u16, a.max(other) as u16), -1.0f32); t.insert((b.min(other) as u16, b.max(other) as u16), -1.0f32); tables.push((t.clone(), HashMap::new())); tables.push((HashMap::new(), t)); } }
+            let mut t = HashMap::new(); t.insert((a as u16, b as u16), -1.0f32); tables.push((t.clone(), t.clone()));
+            let mut t2 = HashMap::new(); t2.insert((b as u16, a as u16), -1.0f32); tables.push((t2.clone(), t2));
+        }
+        for (own_t, given_t) in tables {
+            let (body, kin) = cube_world(tool, base, nenv, (a, b), own_t.clone(), to_env, to_robot, CheckMode::AllCollsions);
+            let q = [0.0; 6];
+            let (got, used) = if own || searching && given_t.is_empty() { (body.collision_details(&q, &kin), own_t.clone()) }
+                else { let s = SafetyDistances { to_environment: to_env, to_robot_default: to_robot, special_distances: given_t.clone(), mode: CheckMode::AllCollsions }; (body.near(&q, &kin, &s), given_t.clone()) };
+            let want = spec_r(&used, a, b, to_env, to_robot) > -1.0;
+            let has = got.iter().any(|p| (p.0 == a.min(b) && p.1 == a.max(b)));
+            if want != has { bad.push(format!("bodies {} and {} coincide; safety table {:?} (body's own table {:?}): expected reported={} got {:?}", a, b, used, own_t, want, got)); }
+            let yes = body.collides(&q, &kin);
+            if own_t == used && want && !yes { bad.push(format!("collides() = false although bodies {} and {} coincide (table {:?})", a, b, used)); }
+        }
+    }
+    bad.dedup(); for b in bad.iter().take(5) { println!("diff={}", b); } println!("reproduced={}", !bad.is_empty());
+}
+
+/// a "telescopic" robot: link i sits at x = 10*i + q_0 + ... + q_i, so moving joint j shifts links j..5 (and the tool) and nothing else
+pub struct Telescopic { pub cons: Option<Constraints> }
+impl Kinematics for Telescopic {
+    fn inverse(&self, _p: &Pose) -> Solutions { vec![] }
+    fn inverse_continuing(&self, _p: &Pose, _q: &Joints) -> Solutions { vec![] }
+    fn forward(&self, q: &Joints) -> Pose { self.forward_with_joint_poses(q)[5] }
+    fn inverse_5dof(&self, _p: &Pose, _j: f64) -> Solutions { vec![] }
+    fn inverse_continuing_5dof(&self, _p: &Pose, _q: &Joints) -> Solutions { vec![] }
+    fn constraints(&self) -> &Option<Constraints> { &self.cons }
+    fn kinematic_singularity(&self, _q: &Joints) -> Option<Singularity> { None }
+    fn forward_with_joint_poses(&self, q: &Joints) -> [Pose; 6] { let mut acc = 0.0; let mut out = [Pose::identity(); 6]; for i in 0..6 { acc += q[i]; out[i] = at(10.0 * i as f64 + acc); } out }
+}
+/// C14: offsets offered == the candidates that are within limits and free by the FULL check of the same robot, for layouts in which a moved
+/// link/tool lands on an unmoved link, on the base, or on an environment object
+pub fn c14(c: &Case) {
+    let mut bad: Vec<String> = Vec::new(); let mut tried = 0;
+    for (tool, base, nenv) in [(true, true, 1usize), (false, true, 2), (true, false, 0), (false, false, 1)] {
+        let kin = Telescopic { cons: Some(Constraints::new([-100.0; 6], [100.0; 6], 0.0)) };
+        let mk = || RobotBody {
+            joint_meshes: [cube(0.5), cube(0.5), cube(0.5), cube(0.5), cube(0.5), cube(0.5)],
+            tool: if tool { Some(rs_opw_kinematics::collisions::transform_mesh(&cube(0.5), &nalgebra::Isometry3::translation(5.0, 0.0, 0.0))) } else { None },
+            base: if base { Some(BaseBody { mesh: cube(0.5), base_pose: at32(-20.0) }) } else { None },
+            collision_environment: (0..nenv).map(|k| CollisionBody { mesh: cube(0.5), pose: at32(80.0 + 7.0 * k as f32) }).collect(),
+            safety: SafetyDistances::standard(CheckMode::FirstCollisionOnly),
+        };
+        let body = mk();
+        let initial = [0.0; 6];
+        if body.collides(&initial, &kin) { bad.push("test layout not collision-free".into()); continue; }
+        // shifts that bring a moved body onto an unmoved one: link j onto link u (10*(u-j)), onto the base (-20-10j), onto env (80-10j), tool onto link u ...
+        let mut shifts: Vec<f64> = vec![3.0, -3.0];
+        for d in -12..=12 { shifts.push(5.0 * d as f64); }
+        for j in 0..6 { shifts.push(-20.0 - 10.0 * j as f64); shifts.push(80.0 - 10.0 * j as f64); shifts.push(87.0 - 10.0 * j as f64); shifts.push(-25.0 - 10.0 * 5.0); }
+        for &dn in &shifts { for &up in &[dn, 3.0] {
+            let from = [dn; 6]; let to = [up; 6]; tried += 1;
+            let got = body.non_colliding_offsets(&initial, &from, &to, &kin);
+            let mut want: Vec<Joints> = Vec::new();
+            for j in 0..6 { for t in [&from, &to] { let mut q = initial; q[j] = t[j]; if kin.cons.as_ref().unwrap().compliant(&q) && !body.collides(&q, &kin) { want.push(q); } } }
+            for w in &want { if !got.iter().any(|g| g == w) { bad.push(format!("free and legal candidate {:?} withheld (tool={}, base={}, env={})", w, tool, base, nenv)); } }
+            for g in &got { if !want.iter().any(|w| w == g) { bad.push(format!("candidate {:?} offered although the full check reports a collision (tool={}, base={}, env={})", g, tool, base, nenv)); } }
+        } }
+    }
+    println!("native_cases={}", tried); bad.dedup(); for b in bad.iter().take(5) { println!("diff={}", b); } println!("reproduced={}", !bad.is_empty());
+}
+
+use rs_opw_kinematics::kinematics_with_shape::KinematicsWithShape;
+/// C11: a real robot with box-shaped links and one environment box; every inverse entry point must equal the stack's answers filtered by !collides, in order
+pub fn c11(c: &Case) {
+    let (_o, p) = opw_of(c); let mut bad: Vec<String> = Vec::new(); let mut tried = 0;
+    let cons = Constraints::new([-3.1; 6], [3.1; 6], 0.0);
+    let mk_mesh = |h: f32| cube(h);
+    for env_x in [0.9f32, 0.4, 5.0] {
+        let env = vec![CollisionBody { mesh: cube(0.35), pose: nalgebra::Isometry3::translation(env_x, 0.2, 0.9) }];
+        let base_t = Pose::translation(0.1, -0.2, 0.3); let tool_t = Pose::translation(0.0, 0.0, 0.15);
+        let k = KinematicsWithShape::new(p, cons, [mk_mesh(0.06), mk_mesh(0.06), mk_mesh(0.06), mk_mesh(0.05), mk_mesh(0.05), mk_mesh(0.04)], mk_mesh(0.1), base_t, mk_mesh(0.05), tool_t, env, true);
+        let stack = &k.kinematics;
+        for q in SEEDS.iter() {
+            tried += 1;
+            let pose = stack.forward(q);
+            if iso_diff(&iso_of(&k.forward(q)), &iso_of(&pose)).0 > 1e-12 { bad.push("forward differs from the underlying stack".into()); }
+            let runs: Vec<(&str, Solutions, Solutions)> = vec![
+                ("inverse", k.inverse(&pose), stack.inverse(&pose)), ("inverse_continuing", k.inverse_continuing(&pose, q), stack.inverse_continuing(&pose, q)),
+                ("inverse_5dof", k.inverse_5dof(&pose, 0.3), stack.inverse_5dof(&pose, 0.3)), ("inverse_continuing_5dof", k.inverse_continuing_5dof(&pose, q), stack.inverse_continuing_5dof(&pose, q))];
+            for (name, got, all) in runs { let want: Solutions = all.into_iter().filter(|s| !k.collides(s)).collect(); if got != want { bad.push(format!("{}: returned {} answers, the non-colliding answers of the stack are {} (order-sensitive comparison)", name, got.len(), want.len())); } }
+            if k.kinematic_singularity(q) != stack.kinematic_singularity(q) { bad.push("singularity report differs".into()); }
+            let (a, b) = (k.forward_with_joint_poses(q), stack.forward_with_joint_poses(q)); for i in 0..6 { if a[i] != b[i] { bad.push("link poses differ from the stack".into()); } }
+            let pr = k.positioned_robot(q); for i in 0..6 { if pr.joints[i].transform != b[i].cast::<f32>() { bad.push("positioned link not at the stack's link pose".into()); } }
+        }
+    }
+    println!("native_cases={}", tried); bad.dedup(); for b in bad.iter().take(5) { println!("diff={}", b); } println!("reproduced={}", !bad.is_empty());
 }
